@@ -49,6 +49,10 @@ theorem live_starts (sp : Spec) (w : World) (h : LiveInv sp w) :
 
 theorem live_ji (sp : Spec) (w : World) (h : LiveInv sp w) : JoinInv sp w := h.ji
 
+/-- C04: a join has at most one execution row -/
+theorem live_jru (sp : Spec) (w : World) (h : LiveInv sp w) :
+    ∀ n, (isJoin sp n).isSome = true → countL w.tasks n ≤ 1 := h.jru
+
 /-! 4. never RUNNING with nothing pending -/
 theorem not_stuck (sp : Spec) (rk : String → Nat) (hsp : SpecOK sp rk) (w : World) (h : LiveInv sp w)
     (hrun : w.wf = .RUNNING) : w.pending ≠ [] :=
